@@ -20,14 +20,15 @@ def parseOracle (s : String) : Option Oracle :=
     | _ => none
 
 structure Op where
-  ty : String
+  ty : Nat
   input : Bytes
   orc : Oracle
   wf : Bool
 
 def parseOp (line : String) : Option Op :=
   match splitWs line with
-  | ty :: h :: rest => do
+  | name :: h :: rest => do
+    let ty ← typeId name
     let input ← hexBytes h
     let wf := rest.contains "wf"
     let os := rest.filter (·.startsWith "o:")
@@ -38,12 +39,9 @@ def parseOp (line : String) : Option Op :=
     pure ⟨ty, input, orc, wf⟩
   | _ => none
 
-def known (ty : String) : Bool := (unmarshalD [] false ty []).isSome
-
 def model (line : String) : String :=
   match parseOp line with
   | some op =>
-    if !known op.ty then "bad-op" else
     match unmarshal op.orc op.ty op.input with
     | some (some out) => "ok " ++ showBytes out ++ " idem"
     | some none => "err"
@@ -61,7 +59,6 @@ def parseObs (obs : String) : Obs :=
 def monitor (opLine obs : String) : String :=
   match parseOp opLine with
   | some op =>
-    if !known op.ty then "FAIL bad-op" else
     let o := parseObs obs
     if !propHolds op.wf op.input o then
       (match o with
